@@ -126,14 +126,28 @@ RunL(A, i, f, ip) ==
 TableRes(f, ip) == IF hasFlow THEN RunL(flow, 1, f, ip) ELSE MissRes(f, ip)
 
 \* the action list of a PACKET_OUT: output:TABLE submits the frame as modified
-\* so far to the flow table (it is not "received": no ingress rule, no rx counter)
-RECURSIVE RunP(_, _, _, _)
-RunP(A, i, f, ip) ==
+\* so far to the flow table (it is not "received": no ingress rule, no rx counter).
+\* What the REST of the list works on after output:TABLE is left open by the
+\* statement between two consistent readings (parameter k, DESIGN 2.8):
+\*   k = FALSE  the table worked on a copy: the list goes on with its own frame;
+\*   k = TRUE   resubmit: the list goes on with the frame as the matching entry
+\*              left it (ALL rewrites of the entry applied, whichever header).
+\* Anything in between (some headers shared, others not) is neither.  In both
+\* readings the frames the table emitted / handed to the controller are final:
+\* later actions of the list never reach them (BufferedAsSent, TableInOrder).
+KeepModes == BOOLEAN
+RECURSIVE AllRew(_, _, _)
+AllRew(B, i, f) == IF i > Len(B) THEN f
+                   ELSE AllRew(B, i + 1, IF IsOut(B[i]) THEN f ELSE Apply(B[i], f))
+AfterTable(f, k) == IF k /\ hasFlow THEN AllRew(flow, 1, f) ELSE f
+IsTab(a) == a.t = "output" /\ a.n = TABLE
+RECURSIVE RunP(_, _, _, _, _)
+RunP(A, i, f, ip, k) ==
   IF i > Len(A) THEN NoRes
   ELSE IF IsOut(A[i])
-  THEN Cat(IF A[i].n = TABLE /\ A[i].t = "output" THEN TableRes(f, ip) ELSE OutOne(A[i], f, ip),
-           RunP(A, i + 1, f, ip))
-  ELSE RunP(A, i + 1, Apply(A[i], f), ip)
+  THEN IF IsTab(A[i]) THEN Cat(TableRes(f, ip), RunP(A, i + 1, AfterTable(f, k), ip, k))
+       ELSE Cat(OutOne(A[i], f, ip), RunP(A, i + 1, f, ip, k))
+  ELSE RunP(A, i + 1, Apply(A[i], f), ip, k)
 
 \* ---- counters ----------------------------------------------------------------
 RECURSIVE TxP(_, _, _), TxB(_, _, _)
@@ -205,8 +219,10 @@ Rx(p, s, c) ==
           /\ held' = HeldAfter(held, r)
           /\ Log("Rx", [p |-> p, f |-> s], TrafficObs(r, FALSE, stats'))
 
-PacketOut(ip, s, A) ==
-  LET r == RunP(A, 1, Shape[s], ip) IN
+PacketOut(ip, s, A, k) ==
+  LET r == RunP(A, 1, Shape[s], ip, k) IN
+  /\ k \in KeepModes
+  /\ (k => r # RunP(A, 1, Shape[s], ip, FALSE))      \* the second reading only where it shows
   /\ InModel(Shape[s], A)
   /\ (UsesTableP(A) => InModel(Shape[s], flow))
   /\ HeldOK(held, r)
@@ -217,11 +233,14 @@ PacketOut(ip, s, A) ==
 
 \* the k-th oldest buffered frame leaves through A, relative to ITS ingress port,
 \* exactly as it was when it was handed to the controller
-PacketOutBuf(k, A) ==
+PacketOutBuf(k, A, kp) ==
   /\ k \in 1..Len(held)
   /\ InModel(held[k].f, A)
-  /\ LET r == RunP(A, 1, held[k].f, held[k].p)
+  /\ (UsesTableP(A) => InModel(held[k].f, flow))
+  /\ kp \in KeepModes
+  /\ LET r == RunP(A, 1, held[k].f, held[k].p, kp)
          h == Without(held, k) IN
+     /\ (kp => r # RunP(A, 1, held[k].f, held[k].p, FALSE))
      /\ HeldOK(h, r)
      /\ UNCHANGED <<cfg, hasFlow, flow, fragDrop>>
      /\ stats' = AfterTx(stats, r.em)
@@ -256,8 +275,8 @@ SetFrag(b) ==
   /\ Log("SetFrag", [drop |-> b], [x |-> 0])
 
 NextRx == \E p \in RxPorts, s \in RxShapes, c \in BOOLEAN : Rx(p, s, c)
-NextPacketOut == \E ip \in InPorts, s \in OutShapes, A \in OutLists : PacketOut(ip, s, A)
-NextPacketOutBuf == \E k \in 1..MaxHeld, A \in BufLists : PacketOutBuf(k, A)
+NextPacketOut == \E ip \in InPorts, s \in OutShapes, A \in OutLists, k \in BOOLEAN : PacketOut(ip, s, A, k)
+NextPacketOutBuf == \E k \in 1..MaxHeld, A \in BufLists, kp \in BOOLEAN : PacketOutBuf(k, A, kp)
 NextFlowMod == \E A \in FlowLists : FlowMod(A)
 NextPortMod == \E p \in ModPorts : \E op \in ModOps[p] : PortMod(p, op)
 NextPortModBad == \E kind \in BadMods, p \in ModPorts, op \in BadOps : PortModBad(kind, p, op)
@@ -349,6 +368,45 @@ InOrder ==
                                 /\ last'.exp.pins[j].inport = ip
                                 /\ last'.exp.pins[j].dlen <= A[co[j]].m
                                 /\ last'.exp.pins[j].dlen <= last'.exp.pins[j].total]_vars
+
+\* The same for a list that contains output:TABLE (packet-outs only), stated per
+\* position: what position i works on is the original frame with the rewrites of
+\* THIS list before i applied (and, in the resubmit reading, all rewrites of the
+\* entry at each earlier TABLE); an output emits exactly that; output:TABLE yields
+\* what the entry's own list yields on exactly that (or the miss packet-in).  So
+\* rewrites of the entry never reach the list's own outputs piecemeal, and later
+\* rewrites of the list never reach what the table emitted or handed over.
+RECURSIVE UptoT(_, _, _, _)
+UptoT(A, i, f, k) ==
+  IF i = 1 THEN f
+  ELSE LET g == UptoT(A, i - 1, f, k) IN
+       IF IsTab(A[i - 1]) THEN (IF k /\ hasFlow THEN Upto(flow, Len(flow) + 1, g) ELSE g)
+       ELSE Apply(A[i - 1], g)
+ListEm(B, g, ip) == LET po == PhysOuts(B, ip) IN
+  [j \in 1..Len(po) |-> [ports |-> OutSet(B[po[j]].n, ip), f |-> Upto(B, po[j], g)]]
+ListPins(B, g, ip) == LET co == CtlOuts(B) IN
+  [j \in 1..Len(co) |-> Pin(ip, "action", Upto(B, co[j], g), B[co[j]].m, NoPktIn(ip))]
+SegEm(A, i, f, ip, k) ==
+  LET g == UptoT(A, i, f, k) IN
+  IF IsTab(A[i]) THEN (IF hasFlow THEN ListEm(flow, g, ip) ELSE <<>>)
+  ELSE IF IsOut(A[i]) /\ OutSet(A[i].n, ip) # {} THEN <<[ports |-> OutSet(A[i].n, ip), f |-> g]>>
+  ELSE <<>>
+SegPins(A, i, f, ip, k) ==
+  LET g == UptoT(A, i, f, k) IN
+  IF IsTab(A[i]) THEN (IF hasFlow THEN ListPins(flow, g, ip)
+                       ELSE IF NoPktIn(ip) THEN <<>> ELSE <<Pin(ip, "miss", g, MissLen, FALSE)>>)
+  ELSE IF A[i].t = "output" /\ A[i].n = CONTROLLER THEN <<Pin(ip, "action", g, A[i].m, NoPktIn(ip))>>
+  ELSE <<>>
+RECURSIVE FlatEm(_, _, _, _, _), FlatPins(_, _, _, _, _)
+FlatEm(A, n, f, ip, k) == IF n = 0 THEN <<>> ELSE FlatEm(A, n - 1, f, ip, k) \o SegEm(A, n, f, ip, k)
+FlatPins(A, n, f, ip, k) == IF n = 0 THEN <<>> ELSE FlatPins(A, n - 1, f, ip, k) \o SegPins(A, n, f, ip, k)
+TableInOrder ==
+  [][(last'.a \in {"PacketOut", "PacketOutBuf"} /\ UsesTable(last'.args.acts)) =>
+       LET A  == last'.args.acts
+           ip == IngressOf(last')
+           f  == FrameOf(last') IN
+       \E k \in BOOLEAN : /\ last'.exp.em = FlatEm(A, Len(A), f, ip, k)
+                          /\ last'.exp.pins = FlatPins(A, Len(A), f, ip, k)]_vars
 
 \* a table miss goes to the controller untouched, unless the port forbids it
 MissRule ==
